@@ -218,7 +218,16 @@ func (s *clientSocket) tryUpgradeTo(t ClientTransport, c *transport.Callbacks) (
 				return
 			}
 
-			once.Do(func() { close(done) })
+			// The upgrade either finishes or times out, not both.
+			// If the timeout has already been handled (see below), the transport is closed. Do not switch to it.
+			proceed := false
+			once.Do(func() {
+				proceed = true
+				close(done)
+			})
+			if !proceed {
+				return
+			}
 			s.finishUpgradeTo(t, c)
 		default:
 			t.Close()
@@ -256,6 +265,13 @@ func (s *clientSocket) tryUpgradeTo(t ClientTransport, c *transport.Callbacks) (
 		s.debug.Log("maybeUpgrade", "channel `done` is triggered")
 		return true
 	case <-time.After(s.upgradeTimeout):
+		// `done` and the timeout can be ready at the same time.
+		// If the upgrade is already finished, `t` is the current transport. Do not close it.
+		timedOut := false
+		once.Do(func() { timedOut = true })
+		if !timedOut {
+			return true
+		}
 		t.Close()
 		s.onError(fmt.Errorf("eio: upgrade failed: %w", errUpgradeTimeoutExceeded))
 		return false
